@@ -101,15 +101,15 @@ Proof.
 Qed.
 
 (* the same defect reached without any literal 0 on the wire: the compressed step wraps the reference to 0
-   (the model raises no quirk tag here; the side condition excludes it explicitly) *)
+   (the model raises the same quirk tag) *)
 Theorem decode_denote_wrap_zero_refuted :
   stream_wf w_wrap_zero = true /\ starts_with_file_id w_wrap_zero = true /\
   (exists a b, spec_slots w_wrap_zero = Some a /\ model_slots w_wrap_zero = Some b) /\
-  agree w_wrap_zero = false /\ no_time_quirk w_wrap_zero = false /\ model_quirks w_wrap_zero = [].
+  agree w_wrap_zero = false /\ no_time_quirk w_wrap_zero = false /\ In Q_TS_ZERO (model_quirks w_wrap_zero).
 Proof.
   split; [vm_compute; reflexivity|]. split; [vm_compute; reflexivity|].
   split; [eexists; eexists; split; vm_compute; reflexivity|].
-  split; [vm_compute; reflexivity|]. split; vm_compute; reflexivity.
+  split; [vm_compute; reflexivity|]. split; [vm_compute; reflexivity|]. vm_compute. auto.
 Qed.
 
 (* the reserved bits 5-6 of a base-type byte: types.Base.Known ignores them (so does [compat]) and the validator admits
